@@ -34,6 +34,55 @@ def check(run):
     if len(set(digests.values())) != 1:
         run.violation({"property": run.pid, "kind": "impl-vs-spec", "stream": "key-files", "ops": ["key_digest"],
                        "detail": "the configurations load different proving keys / constraint matrices: " + str(digests)})
+    # ---- tree-only histories (cheap, many): every mutator of the RLN API incl. the batch calls, write-then-delete patterns that
+    #      empty whole aligned blocks again, explicit zero leaves; observables after EVERY call, compared across the four tree builds
+    ncheap = 40 if quick else 400
+    mseqs = []
+    for h in range(ncheap):
+        near = rng.choice([0, 0, 1024, 2048, 4096, 5000, 1023, 3 * 1024])
+        posn = lambda: rng.choice([near, near, near + 1, near + rng.randrange(8), 0, 1, 2, 3, 7, 100, 1023, 1024, 2047])
+        val = lambda: rng.choice([0, 0, 1, rand_fr(rng), rand_fr(rng), rand_fr(rng)])
+        written = []
+        ops = []
+        for _ in range(rng.randint(2, 9)):
+            r = rng.random()
+            if r < 0.3:
+                i = posn(); written.append(i); ops.append(f"set {hex(i)} {hex(val())}")
+            elif r < 0.45:
+                ops.append(f"app {hex(val())}")
+            elif r < 0.75 and written:
+                i = rng.choice(written)                                     # delete / zero what this history wrote itself
+                ops.append(rng.choice([f"del {hex(i)}", f"del {hex(i)}", f"set {hex(i)} 0x0", f"atomic 0x0 - {hex(i)}" if i < 256 else f"del {hex(i)}"]))
+            elif r < 0.85:
+                i = posn(); n = rng.choice([1, 2, 3]); written += list(range(i, i + n))
+                ops.append(f"set_leaves_from {hex(i)} {','.join(hex(val()) for _ in range(n))}")
+            elif r < 0.9:
+                i = posn(); n = rng.choice([1, 2]); written += list(range(i, i + n))
+                ops.append(f"atomic {hex(i)} {','.join(hex(val()) for _ in range(n))} -")
+            elif r < 0.93:
+                n = rng.choice([0, 1, 3]); written = list(range(n))
+                ops.append("init_leaves " + (",".join(hex(val()) for _ in range(n)) or "-"))
+            else:
+                ops.append(f"del {hex(posn())}")
+        lines = []
+        for o in ops:
+            lines += [o, "root", "count"]
+        lines += [f"path {hex(i)}" for i in sorted(set(rng.sample(written, min(len(written), 2)) + [0, near]))] + [f"leaf {hex(near)}", "empty"]
+        outs = {c: core.run_bin(B[c], lines) for c in TREE_CONFIGS}
+        run.count_case(tuple(lines))
+        run.cov["traces_validated_against_impl"] += 1
+        for c in TREE_CONFIGS[1:]:
+            for k, (a, b) in enumerate(zip(outs["pm"], outs[c])):
+                if lines[k].startswith("del ") and {a, b} <= {"ok", "err"}:
+                    continue
+                if a != b:
+                    run.violation({"property": run.pid, "kind": "impl-vs-spec", "stream": "same-tree-history", "ops": lines[:k + 1],
+                                   "detail": f"configurations pm and {c} disagree on `{lines[k]}`: {a[:100]} vs {b[:100]}"})
+                    break
+        tr = {"set": "rln set_leaf", "app": "rln set_next", "del": "rln delete", "set_leaves_from": "rln set_leaves_from", "atomic": "rln atomic",
+              "init_leaves": "rln init_leaves", "root": "rln root", "count": "rln leaves_set", "path": "rln get_proof", "leaf": "rln get_leaf", "empty": "rln empty"}
+        mseqs.append(["rln new"] + [" ".join([tr[l.split(" ")[0]]] + l.split(" ")[1:]) for l in lines])
+    run.differential("tree-histories-vs-model", mseqs, shrink=False)
     # ---- same history under every tree backend: roots, leaf counts, membership paths; then messages exchanged
     nhist = 4 if quick else 30
     for h in range(nhist):
@@ -105,4 +154,4 @@ def check(run):
                 run.violation({"property": run.pid, "kind": "impl-vs-spec", "stream": "cross-verify", "ops": [f"verify_roots {hx(full)} {hx(root)}"],
                                "detail": f"the stateless verifier, given the producer's root, answers {o} for a message produced under `{producer}`"})
     run.sample({"history": hist[:6], "configs": list(B)})
-    run.rules.append("five builds of one small program (features: default/pmtree, fullmerkletree, none/optimal, arkzkey, stateless) against the current /repo: zkey vs arkzkey compared with == inside the arkzkey build and by digest across builds; random histories of single-leaf writes, appends and deletions replayed under every tree backend with roots, leaf counts, membership paths and the exported witness compared byte for byte (and against model and specification); a message proved under each configuration (the stateless one from the exported witness) verified under every other with the same history, and by the stateless verifier given the producer's root; distinct = distinct history")
+    run.rules.append("five builds of one small program (features: default/pmtree, fullmerkletree, none/optimal, arkzkey, stateless) against the current /repo: zkey vs arkzkey compared with == inside the arkzkey build and by digest across builds; many tree-only histories through every mutator of the RLN API (single writes, appends, deletions, set_leaves_from, init_tree_with_leaves, atomic batches outside the open C08 shapes; write-then-delete patterns around 1024-aligned blocks, explicit zero leaves) with root and leaf count after every call, paths, leaves and the empty list at the end, compared across the four tree builds and with model and specification; random histories of single-leaf writes, appends and deletions replayed under every tree backend with roots, leaf counts, membership paths and the exported witness compared byte for byte (and against model and specification); a message proved under each configuration (the stateless one from the exported witness) verified under every other with the same history, and by the stateless verifier given the producer's root; distinct = distinct history")
